@@ -17,3 +17,15 @@ package msi
 //@   on call invoke atomicfile.AtomicFile.Close(_) ret (e): open = false
 //@   ensures @no_temp_file_left !open
 //@   ensures @success_means_committed ret0 == nil ==> committed
+//@
+//@ func (*msiTransformer).GetReader$1
+//@   property C09
+//@   ghost terr error = nil
+//@   ghost dstG io.Writer = nil
+//@   ghost produced bool = false
+//@   ghost closed bool = false
+//@   before call authenticode.MsiToTar(c, dst): assert @the_document_being_signed_is_what_gets_uploaded c == t.cdf && dst == iface(w) && !produced
+//@   on call authenticode.MsiToTar(_, dst) ret (e): terr = e; produced = true; dstG = dst
+//@   before call (*io.PipeWriter).CloseWithError(p, e): assert @a_failed_transform_fails_the_upload_instead_of_ending_it_early iface(p) == dstG && produced && e == terr
+//@   on call (*io.PipeWriter).CloseWithError(_, _) ret (x): closed = true
+//@   ensures @the_upload_stream_is_always_ended closed
